@@ -170,6 +170,10 @@ func cmdFunc(args []string) {
 				}
 			}
 			cnt[status]++
+			if kl := os.Getenv("GOVC_KEEPLABEL"); kl != "" && o.Label == kl && *keep != "" {
+				os.MkdirAll(*keep, 0o755)
+				os.WriteFile(filepath.Join(*keep, sanitize(fmt.Sprintf("%s-p%d-%s", o.Name(), o.Path, status))+".smt2"), []byte(s.m.queryOf[o]), 0o644)
+			}
 			if status != "unsat" && status != "ok(sat)" {
 				bad++
 				fmt.Printf("   %-10s %s path=%d site=%s abstract=%v by=%s\n", status, o.Name(), o.Path, o.Site, o.Abstract, o.Res.Backend)
